@@ -172,7 +172,7 @@ _add(mk_col_mask(2, L4_QUICK[2]))
 
 # ---- label selection: loc == iloc o positions; label slices include the stop label; absent label raises
 
-def mk_loc(nrows, layout, tier='quick'):
+def mk_loc(nrows, layout, tier='quick', step=None):
     def body(env, rl, c_start, c_stop):
         f, rows, index, columns = mk_frame(env, nrows, layout)
         # column labels are 'a'..'d'; symbolic ints choose the slice end labels
@@ -191,25 +191,32 @@ def mk_loc(nrows, layout, tier='quick'):
             if ls == 'zz' or le == 'zz':
                 raise KeyError('zz')
             s = None if ls is None else columns.index(ls)
-            e = None if le is None else columns.index(le) + 1
-            exp = ref_frame_select(rows, index, columns, ri, slice(s, e))
+            if step is not None and step < 0:
+                # the stop label is INCLUDED: the positional stop lies one beyond it in the direction of travel
+                e = None if (le is None or columns.index(le) == 0) else columns.index(le) - 1
+            else:
+                e = None if le is None else columns.index(le) + 1
+            exp = ref_frame_select(rows, index, columns, ri, slice(s, e, step))
         except KeyError:
             exp = ['raises', 'KeyError']
         from static_frame.core.exception import LocInvalid
         try:
-            got = obs_container(env, f.loc[rl, ls:le])
+            got = obs_container(env, f.loc[rl, ls:le:step])
         except (KeyError, LocInvalid):  # both are the library's "label not found" errors
             got = ['raises', 'KeyError']
         return got, exp
-    return Cond(f'loc_rowlabel_colslice_{nrows}x_{layouts.name(layout)}', [('rl', 'int'), ('c_start', 'oint'), ('c_stop', 'oint')], body,
+    return Cond(f'loc_rowlabel_colslice_{nrows}x_{layouts.name(layout)}' + ('' if step is None else f'_step{step}'), [('rl', 'int'), ('c_start', 'oint'), ('c_stop', 'oint')], body,
             ranges={'c_start': (0, 4), 'c_stop': (0, 4)},
             functions=['Frame._compound_loc_to_iloc', 'Index._loc_to_iloc', 'LocMap.loc_to_iloc', 'LocMap.map_slice_args', 'Frame._extract'],
-            bounds=f'{nrows}x4 frame, layout {layout}; row label an UNBOUNDED symbolic int (absent labels must raise), column label-slice ends chosen among the 4 labels, an absent label, or None',
-            route='Frame.loc[row_label, col_label_start:col_label_stop]', tier=tier)
+            bounds=f'{nrows}x4 frame, layout {layout}; row label an UNBOUNDED symbolic int (absent labels must raise), column label-slice ends chosen among the 4 labels, an absent label, or None; step ' + repr(step) + ' (the stop label is included in either direction)',
+            route='Frame.loc[row_label, col_label_start:col_label_stop:step]', tier=tier)
 
 
 _add(mk_loc(2, L4_QUICK[0]))
 _add(mk_loc(3, L4_QUICK[2]))
+_add(mk_loc(2, L4_QUICK[0], step=-1))
+_add(mk_loc(2, L4_QUICK[2], step=-2))
+_add(mk_loc(2, L4_QUICK[3], step=2))
 
 
 # ---- Series: iloc int / slice / list, loc label, Boolean Series key aligned by label
@@ -360,6 +367,139 @@ for _st in (None, 2, -1):
 _add(mk_auto_two_step(3, tier='thorough'))
 _add(mk_auto_two_step(-2, tier='thorough'))
 
+
+
+# ---------------------------------------------------------------- Boolean Series keys are aligned by label: flat and hierarchical, both axes
+
+def body_boolseries_aligned(env, b0, b1, b2, b3, p, hier, target):
+    from vf import rt
+    bools = [bool(b0), bool(b1), bool(b2), bool(b3)]
+    rot, hier = None, bool(hier)
+    for k in range(4):
+        if p == k:
+            rot = k
+    tgt = None
+    for k in range(3):
+        if target == k:
+            tgt = k
+
+    def run():
+        sf = env.sf
+        labels = [('a', 1), ('a', 2), ('b', 1), ('b', 3)] if hier else [3, 1, 4, 2]
+        mk_index = (lambda labs: sf.IndexHierarchy.from_labels(labs)) if hier else (lambda labs: sf.Index(labs))
+        # the key holds the SAME labels in another order (a rotation; for the hierarchy the two outer groups swap for odd rotations)
+        if hier:
+            orders = ([0, 1, 2, 3], [1, 0, 2, 3], [2, 3, 0, 1], [3, 2, 1, 0])
+            order = orders[rot]
+        else:
+            order = [(i + rot) % 4 for i in range(4)]
+        klabels = [labels[i] for i in order]
+        key = sf.Series(env.array(bools, 'bool'), index=mk_index(klabels))
+        want = {l: b for l, b in zip(klabels, bools)}
+        sel = [i for i, l in enumerate(labels) if want[l]]
+        vals = [7, 8, 9, 10]
+        lab_obs = (lambda ls: [list(l) for l in ls]) if hier else (lambda ls: list(ls))
+
+        def idx_obs(ix):
+            return env.obs([list(t) for t in ix]) if ix.depth > 1 else env.obs(ix.values.tolist())
+        if tgt == 0:
+            s = sf.Series(env.array(vals, 'int64'), index=mk_index(labels))
+            r = s.loc[key]
+            got = [idx_obs(r.index), env.obs(r.values.tolist())]
+            exp = [lab_obs([labels[i] for i in sel]), [vals[i] for i in sel]]
+        elif tgt == 1:
+            f = sf.Frame.from_items((('x', env.array(vals, 'int64')), ('y', env.array([v + 100 for v in vals], 'int64'))), index=mk_index(labels))
+            r = f.loc[key]
+            got = [idx_obs(r.index), env.obs(r.values.tolist())]
+            exp = [lab_obs([labels[i] for i in sel]), [[vals[i], vals[i] + 100] for i in sel]]
+        else:
+            f = sf.Frame(env.array([vals, [v + 100 for v in vals]], 'int64'), index=[0, 1], columns=mk_index(labels))
+            r = f[key]
+            got = [idx_obs(r.columns), env.obs(r.values.tolist())]
+            exp = [lab_obs([labels[i] for i in sel]), [[vals[i] for i in sel], [vals[i] + 100 for i in sel]]]
+        if not sel:
+            got[1], exp[1] = [], []
+        return got, exp
+    return rt.untraced(run)
+
+
+_add(Cond('loc_boolseries_key_aligned_by_label', [(f'b{i}', 'bool') for i in range(4)] + [('p', 'int'), ('hier', 'bool'), ('target', 'int')], body_boolseries_aligned,
+        ranges={'p': (0, 3), 'target': (0, 2)},
+        functions=['Index._loc_to_iloc', 'IndexHierarchy._loc_to_iloc', 'key_from_container_key'],
+        bounds='4 labels, flat or depth-2 hierarchical (symbolic); Boolean Series key over the same labels in one of 4 orders (symbolic), every Boolean symbolic; Series.loc / Frame.loc (rows) / Frame[...] (columns) (symbolic)',
+        route='selection with a Boolean Series key: aligned by LABEL to the selected axis whatever the order of the key, on flat and hierarchical indices', timeout=400))
+
+
+# ---------------------------------------------------------------- datetime index: exact, partial-period and slice keys, also after growth
+
+DAYS = ('2020-01-30', '2020-01-31', '2020-02-01', '2020-02-02', '2020-03-01')
+
+
+def body_datetime_keys(env, n0, grow, read, kk, go):
+    """IndexDate / IndexDateGO over the first n0 of five days; optionally read (arrays cached) and then grown by the next
+    day(s); then a key of a symbolic form selects: exact day (str / date / datetime64), a month (str / datetime64[M]), a
+    slice between a day and a month.  Reference: list comprehension over ISO strings."""
+    from vf import rt
+    import datetime
+    n0, grow, read, kk, go = None if False else n0, grow, bool(read), kk, bool(go)
+    for k in range(1, 5):
+        if n0 == k:
+            n0 = k
+    for k in range(0, 3):
+        if grow == k:
+            grow = k
+    for k in range(0, 7):
+        if kk == k:
+            kk = k
+
+    def run():
+        sf = env.sf
+        import numpy as real_np
+        n_final = min(n0 + (grow if go else 0), 5)
+        if go:
+            ix = sf.IndexDateGO(DAYS[:n0])
+            f = sf.FrameGO(env.array([list(range(n0))], 'int64'), index=[0], columns=ix)
+            if read:
+                _ = f.columns.values
+                _ = f['2020-01']
+            for j in range(n0, n_final):
+                f[DAYS[j]] = env.array([j], 'int64')
+        else:
+            f = sf.Frame(env.array([list(range(n0))], 'int64'), index=[0], columns=sf.IndexDate(DAYS[:n0]))
+        held = list(DAYS[:n_final])
+        keys = [('2020-02-01', lambda d: d == '2020-02-01'), (datetime.date(2020, 1, 31), lambda d: d == '2020-01-31'),
+                (real_np.datetime64('2020-02-02'), lambda d: d == '2020-02-02'), ('2020-02', lambda d: d.startswith('2020-02')),
+                (real_np.datetime64('2020-01'), lambda d: d.startswith('2020-01')),
+                (slice('2020-01-31', '2020-02'), lambda d: '2020-01-31' <= d and d[:7] <= '2020-02'),
+                (slice('2020-02', None), lambda d: d[:7] >= '2020-02')]
+        key, pred = keys[kk]
+        want = [i for i, d in enumerate(held) if pred(d)]
+        exact = kk in (0, 1, 2)
+        if (kk == 5 and not ('2020-01-31' in held and any(d.startswith('2020-02') for d in held))) or (kk == 6 and not any(d.startswith('2020-02') for d in held)):
+            # a slice end that names a day / period with no label: the library answers LocInvalid or an empty selection;
+            # the property does not say which: outside
+            return ['outside'], ['outside']
+        try:
+            r = f[key]
+            if isinstance(r, sf.Series):
+                got = ['S', str(r.name), env.obs(r.values.tolist())]
+            else:
+                got = ['F', [str(c) for c in r.columns.values.tolist()], env.obs(r.values.tolist()[0]) if r.shape[1] else []]
+        except KeyError:
+            got = ['KeyError']
+        if exact:
+            exp = ['S', held[want[0]], [want[0]]] if want else ['KeyError']
+        else:
+            exp = ['F', [held[i] for i in want], [i for i in want]]
+        return got, exp
+    return rt.untraced(run)
+
+
+_add(Cond('datetime_index_keys_after_growth', [('n0', 'int'), ('grow', 'int'), ('read', 'bool'), ('kk', 'int'), ('go', 'bool')], body_datetime_keys,
+        ranges={'n0': (1, 4), 'grow': (0, 2), 'kk': (0, 6)}, pre=['go or (grow == 0 and not read)'],
+        functions=['Index._loc_to_iloc', 'LocMap.loc_to_iloc'],
+        bounds='IndexDate / IndexDateGO columns (symbolic) over the first 1..4 of five days; for the grow-only form: arrays read or not, then 0..2 further days appended; key form symbolic over exact day (str / date / datetime64), month (str / datetime64[M]), slices mixing a day and a month',
+        route='Frame[...] on a datetime index: exact keys select their label or raise KeyError, a coarser key selects every label inside the period, slices include their stop period; also right after growth of a grow-only index', timeout=400))
 
 
 # ---------------------------------------------------------------- column KINDS symbolic, every block layout
